@@ -82,6 +82,16 @@ def handleCore : Handler := fun st op args =>
       | some a, some b =>
         let same := Spec.abs a == Spec.abs b
         s!"eq={if a.equal b then 1 else 0} hsame={if a.hashOf == b.hashOf then 1 else 0} same={if same then 1 else 0}")
+  | "transpre", [ptok, sa, sb, _dirt] =>
+    -- storage is invisible in the model (C09.heap_refines_pure): the required answer is that of `trans`, and every
+    -- intermediate of route B equals the same prefix played into fresh storage
+    some (st, withPos ptok fun p =>
+      match applySeq st.basis p sa, applySeq st.basis p sb with
+      | none, _ => "errA"
+      | _, none => "errB"
+      | some a, some b =>
+        let same := Spec.abs a == Spec.abs b
+        s!"eq={if a.equal b then 1 else 0} hsame={if a.hashOf == b.hashOf then 1 else 0} same={if same then 1 else 0} pre=1")
   | "rebuild", [ptok] =>
     some (st, withPos ptok fun p =>
       let board := (Spec.abs p).squares.map (fun sq => sq.map Piece.code)
